@@ -4,7 +4,9 @@ import (
 	"bytes"
 	"fmt"
 	"hash/fnv"
+	"net"
 	"sync"
+	"verif/h/simnet"
 
 	"verif/h/gen"
 	"verif/h/mon"
@@ -52,7 +54,13 @@ func (t transcript) equal(o transcript) bool {
 
 // c09Solo runs one script alone on its own connection.
 func c09Solo(ref *refsrv.Ref, key []byte, remote int, sid uint32, rcp recipe) (transcript, bool) {
-	rc := newRefConn(ref, remote, key)
+	return c09SoloFrom(ref, key, simnet.RemoteFor(remote), sid, rcp)
+}
+
+// c09SoloFrom: the same from an explicit client address (several connections of one host differ in
+// the port only).
+func c09SoloFrom(ref *refsrv.Ref, key []byte, remote *net.TCPAddr, sid uint32, rcp recipe) (transcript, bool) {
+	rc := &refConn{ref: ref, c: ref.L.Dial(remote), key: key, last: map[uint32]int{}}
 	defer func() {
 		if !rc.c.Closed() {
 			rc.c.EOF()
@@ -224,6 +232,7 @@ func runC09(b *mon.B) {
 			var mu sync.Mutex
 			base := remote
 			remote += n
+			sameHost := caseNo%2 == 0
 			for i := range recs {
 				wg.Add(1)
 				go func(i int) {
@@ -234,7 +243,14 @@ func runC09(b *mon.B) {
 					if i%2 == 1 {
 						k, at = key1, 1<<16|at
 					}
-					t, ok := c09Solo(muxRef, k, at, sids[i], recs[i])
+					addr := simnet.RemoteFor(at)
+					if sameHost {
+						// all connections of a scope come from ONE host (a device with several
+						// connections): same address, different ports
+						addr = simnet.RemoteFor(at&^0xffff | 7)
+						addr.Port = 20000 + i
+					}
+					t, ok := c09SoloFrom(muxRef, k, addr, sids[i], recs[i])
 					mu.Lock()
 					got[i] = t
 					okAll = okAll && ok
